@@ -5,6 +5,7 @@
    Commands:
      unber <hex>   ->  <exit> <text with '\n' written as '|', or '-'>
      xxber <hex>   ->  OK <hex> | ERR:<kind> <hex written before the diagnostic>
+     render_recs <records>  ->  text;   enber_recs <records>  ->  as xxber (enber on given line records)
      spec_ser <tree>, spec_nodes <tree>   (spec side, see below) *)
 open Model
 open Drvlib
@@ -100,6 +101,22 @@ and parse_n n toks =
 
 let rec parse_forest toks = match toks with [] -> [] | _ -> let (t, r) = parse_tree toks in t :: parse_forest r
 
+(* line records on the command line, separated by "/":
+     O lv off tag tl vlen | P lv off tag tl vlen hexbody | C lv off tag esz | I lv off esz *)
+let rec split_recs acc cur = function
+  | [] -> List.rev (if cur = [] then acc else List.rev cur :: acc)
+  | "/" :: r -> split_recs (List.rev cur :: acc) [] r
+  | t :: r -> split_recs acc (t :: cur) r
+
+let rec_of = function
+  | ["O"; lv; off; tag; tl; v] -> LOpen (nat_of_int (int_of_string lv), cz_of_string off, cz_of_string tag, cz_of_string tl, cz_of_string v)
+  | ["P"; lv; off; tag; tl; v; b] -> LPrim (nat_of_int (int_of_string lv), cz_of_string off, cz_of_string tag, cz_of_string tl, cz_of_string v, bytes_of_hex b)
+  | ["C"; lv; off; tag; esz] -> LClose (nat_of_int (int_of_string lv), cz_of_string off, cz_of_string tag, cz_of_string esz)
+  | ["I"; lv; off; esz] -> LCloseI (nat_of_int (int_of_string lv), cz_of_string off, cz_of_string esz)
+  | _ -> failwith "record syntax"
+
+let recs toks = List.map rec_of (split_recs [] [] toks)
+
 let node_s (((off, tag), hl), cl) = Printf.sprintf "%s:%s:%s:%s" (zs off) (zs tag) (zs hl) (zs cl)
 
 let dispatch cmd args =
@@ -109,6 +126,8 @@ let dispatch cmd args =
       (match nodes_forest (parse_forest toks) Z0 with
        | [] -> Some "-"
        | ns -> Some (String.concat "," (List.map node_s ns)))
+  | "render_recs", toks -> Some (text_s (recs toks))
+  | "enber_recs", toks -> Some (enber_s (enber (recs toks)))
   | "unber", [h] -> let (ls, x) = unber (bytes_of_hex h) in Some (exit_s x ^ " " ^ text_s ls)
   | "xxber", [h] -> Some (enber_s (xxber (bytes_of_hex h)))
   | _ -> None
